@@ -50,6 +50,22 @@ Theorem C03_inputs_are_the_requested_arguments_under_their_names :
 Proof. exact build_public_inputs. Qed.
 Print Assumptions C03_inputs_are_the_requested_arguments_under_their_names.
 
+(* ... and, without any premise, names AND types of inputs AND outputs: the graph inputs are the requested arguments (all in order;
+   with drop_unused_inputs a sub-sequence), the graph outputs the requested outputs in order; every entry carries the name it was
+   requested under and the concrete type of its Var.  (A Var that has a user name is only ever bound to that name: BoundRight.) *)
+Theorem C03_io_by_construction :
+  forall p r m inputs outputs,
+  build_public p r = inl m -> all_vars (r_inputs r) = Some inputs -> all_vars (r_outputs r) = Some outputs ->
+  exists args, (r_drop r = false -> args = map snd inputs) /\ (forall a, In a args -> In a (map snd inputs)) /\
+    match mmain m with MGraph gi _ go_ =>
+      Forall2 (fun a x => (forall n, lookup var_eqb a (user_names inputs) = Some n -> fst x = n) /\
+                          exists t, vty p a = Some t /\ snd x = tshow t /\ tconcrete t = true) args gi /\
+      map fst go_ = map fst outputs /\
+      Forall2 (fun kv x => exists t, vty p (snd kv) = Some t /\ snd x = tshow t /\ tconcrete t = true) outputs go_
+    end.
+Proof. exact build_public_io. Qed.
+Print Assumptions C03_io_by_construction.
+
 (* Inputs or outputs that are not Vars raise TypeError; inputs that are not arguments raise TypeError; no outputs: ValueError. *)
 Theorem C03_bad_kinds_typeerror :
   forall p r, all_vars (r_inputs r) = None \/ all_vars (r_outputs r) = None -> build_public p r = inr EType.
